@@ -385,26 +385,36 @@ class SSScriptedSource(Elaboratable):
     CRC16 / CRC32 are combinational chains of the repo's step functions, one named Signal per stage.
     Ghost interface is the same as SSPacketSource's (ev_*, hdr_ok, crc32_ok, length, dw, pay_n, in_payload)."""
 
-    def __init__(self, h, packets, prefix="p_"):
+    def __init__(self, h, packets, prefix="p_", lead=0):
         p = self._p = prefix
         self.packets = packets
-        self.script = []          # (kind, packet index)
+        self.script = [("FREE", 0)] * lead          # (kind, packet index); `lead` FREE cycles first
         for i, pk in enumerate(packets):
             self.script += [(k, i) for k in packet_script(pk.get("length"), pk.get("gaps", ()), pk.get("idle_after", 0))]
         self.w = h.inp(p + "w", 32)            # junk / free traffic word
         self.wc = h.inp(p + "wc", 4)
         self.wv = h.inp(p + "wv", 1)           # free traffic valid
         self.f = []
+        self.a_pk = []
         for i, pk in enumerate(packets):
             L = pk.get("length")
             n = 0 if L is None else (L + 3) // 4
-            self.f.append(dict(
+            hm = pk.get("hdr_masks", "free")        # "zero" | "nonzero" | "free"
+            ty = pk.get("type")                      # int (concrete type field) | None (free) | "notdata"
+            f = dict(
                 dw0=h.inp(f"{p}{i}_dw0", 32, const=True), dw1lo=h.inp(f"{p}{i}_dw1lo", 16, const=True),
                 dw1hi=None if L is not None else h.inp(f"{p}{i}_dw1hi", 16, const=True),
                 dw2=h.inp(f"{p}{i}_dw2", 32, const=True), lcw=h.inp(f"{p}{i}_lcw", 11, const=True),
-                m16=h.inp(f"{p}{i}_m16", 16, const=True), m5=h.inp(f"{p}{i}_m5", 5, const=True),
+                m16=Const(0, 16) if hm == "zero" else h.inp(f"{p}{i}_m16", 16, const=True),
+                m5=Const(0, 5) if hm == "zero" else h.inp(f"{p}{i}_m5", 5, const=True),
                 m32=h.inp(f"{p}{i}_m32", 32, const=True) if L is not None else None,
-                pay=[h.inp(f"{p}{i}_pay{j}", 32, const=True) for j in range(n)]))
+                pay=[h.inp(f"{p}{i}_pay{j}", 32, const=True) for j in range(n)])
+            f["dw0v"] = Cat(Const(ty, 5), f["dw0"][5:32]) if isinstance(ty, int) else f["dw0"]
+            a = None
+            if hm == "nonzero" or ty == "notdata":
+                a = h.assume(f"{p}{i}_cfg")
+            self.a_pk.append((a, hm, ty))
+            self.f.append(f)
         self.a_free = h.assume(p + "free_not_hpstart")
         self.valid = Signal(name=p + "valid")
         self.data = Signal(32, name=p + "data")
@@ -424,6 +434,15 @@ class SSScriptedSource(Elaboratable):
         self.length = Signal(16, name=p + "length")
         self.in_payload = Signal(name=p + "in_payload")
         self.pkt = Signal(range(len(packets) + 1), name=p + "pkt")   # index of the packet being sent
+        self.hdr_ok_now = Signal(name=p + "hdr_ok_now")             # with ev_dw3: CRC16/CRC5 of this header uncorrupted
+        self.lcw_now = Signal(11, name=p + "lcw_now")               # with ev_dw3: its link control word
+        self.in_hp = Signal(name=p + "in_hp")                       # HPSTART..DW3 of a header is on the wire (incl. gaps)
+
+    def _gap_in_hp(self, c):
+        k = c
+        while k < len(self.script) and self.script[k][0] == "GAP":
+            k += 1
+        return k < len(self.script) and self.script[k][0] in ("DW0", "DW1", "DW2", "DW3")
 
     def elaborate(self, platform):
         m = Module()
@@ -439,7 +458,20 @@ class SSScriptedSource(Elaboratable):
             L = pk.get("length")
             dw1 = Signal(32, name=f"{p}{i}_dw1")
             m.d.comb += dw1.eq(Cat(f["dw1lo"], Const(L, 16) if L is not None else f["dw1hi"]))
-            hw = header_words(m, f"{p}{i}_h", f["dw0"], dw1, f["dw2"], f["lcw"], f["m16"], f["m5"])
+            dw0 = Signal(32, name=f"{p}{i}_dw0v")
+            m.d.comb += dw0.eq(f["dw0v"])
+            hw = header_words(m, f"{p}{i}_h", dw0, dw1, f["dw2"], f["lcw"], f["m16"], f["m5"])
+            a, hm, ty = self.a_pk[i]
+            if a is not None:
+                conds = []
+                if hm == "nonzero":
+                    conds.append((f["m16"] != 0) | (f["m5"] != 0))
+                if ty == "notdata":
+                    conds.append(f["dw0"][0:5] != HP_TYPE_DATA)
+                c = conds[0]
+                for x in conds[1:]:
+                    c = c & x
+                m.d.comb += a.eq(c)
             d = dict(hw=hw, dw1=dw1)
             if L is not None:
                 nfull, r = divmod(L, 4)
@@ -470,6 +502,8 @@ class SSScriptedSource(Elaboratable):
                     f, d = self.f[i], pw[i]
                     L = self.packets[i].get("length")
                     m.d.comb += self.pkt.eq(i)
+                    if kind in ("HPSTART", "DW0", "DW1", "DW2", "DW3") or (kind == "GAP" and self._gap_in_hp(c)):
+                        m.d.comb += self.in_hp.eq(1)
                     if kind == "GAP":
                         m.d.comb += [go.eq(0), self.gap.eq(1)]
                     elif kind == "FREE":
@@ -481,7 +515,8 @@ class SSScriptedSource(Elaboratable):
                         m.d.comb += [go.eq(1), word.eq(d["hw"][k]), wctrl.eq(0)]
                         m.d.ss += self.dw[k].eq(d["hw"][k])
                     elif kind == "DW3":
-                        m.d.comb += [go.eq(1), word.eq(d["hw"][3]), wctrl.eq(0), self.ev_dw3.eq(1)]
+                        m.d.comb += [go.eq(1), word.eq(d["hw"][3]), wctrl.eq(0), self.ev_dw3.eq(1),
+                                     self.hdr_ok_now.eq((f["m16"] == 0) & (f["m5"] == 0)), self.lcw_now.eq(f["lcw"])]
                         m.d.ss += [self.cur_lcw.eq(f["lcw"]), self.hdr_ok.eq((f["m16"] == 0) & (f["m5"] == 0))]
                     elif kind == "DPPSTART":
                         m.d.comb += [go.eq(1), word.eq(DPPSTART[0]), wctrl.eq(DPPSTART[1]), self.ev_dppstart.eq(1)]
